@@ -199,6 +199,7 @@ theorem interact_pres (hp : Tol cfg P) (reads : Bool) (tag : String) (s : St) (t
             · rw [if_neg hq]; exact hp.tclose _ h'
           · exact h'
         · exact h'
+        · exact h'
 
 theorem runActs_pres (hp : Tol cfg P) (l : List Act) : ∀ s tape, P s → P (runActs cfg l s tape).st := by
   induction l with
